@@ -52,7 +52,7 @@ def random_cases(draw):
     manager = draw(st.sampled_from(MANAGERS))
     prefix = [["new", draw(st.integers(1, 4))]]
     ops = draw(st.lists(op_strategy(), min_size=3, max_size=40))
-    return {"manager": manager, "ops": prefix + ops, "items": draw(st.sampled_from(["str", "str", "int", "tuple"]))}
+    return {"manager": manager, "ops": prefix + ops, "items": draw(st.sampled_from(["str", "str", "int", "tuple", "intname"]))}
 
 
 ALPHABET = [
@@ -80,7 +80,7 @@ def exhaustive_cases(tier):
         for n in range(1, depth + 1):
             for seq in itertools.product(ALPHABET, repeat=n):
                 idx += 1
-                yield {"manager": manager, "ops": PREFIX + [list(o) for o in seq], "items": binmodel.ITEM_KINDS[idx % 3]}
+                yield {"manager": manager, "ops": PREFIX + [list(o) for o in seq], "items": binmodel.ITEM_KINDS[idx % 4]}
 
 
 def stateful_leg(n, seed, rec, tier):
@@ -189,4 +189,4 @@ def main():
         "hand-over discipline of the statement: an array passed to add_empty_bins / remove_bins / concatenate_bins is afterwards used "
         "only through the returned array; concatenate and combine are never applied to an array and itself",
         "which of several bins with equal sums comes first after sorting is not prescribed",
-        "items are names with a value table, plain numbers that are their own value, or (name, value) records read through a value function; values 0..9"])
+        "items are names with a value table, plain numbers that are their own value, (name, value) records read through a value function, or integer ids with a value table; values 0..9"])
